@@ -112,6 +112,17 @@ def run(chk, replay):
             chk.violation(k, "%s of %d triangles (vector %s): %s [size %d, count %d, LoadSTL err %d n %d]" % (
                 e["kind"], e["n"], json.dumps(e["vec"])[:300], why, e["size"], e["count"], e["lerr"], e["ln"]),
                 dict(vector=e["vec"], kind=e["kind"], why=why))
+    # ---- very long lists (beyond 2^20 triangles), compared element by element in the harness
+    if not chk.violations:
+        lout = chk.vh(["c13-large"], timeout=900)
+        lobs = [json.loads(x) for x in lout.splitlines() if x.strip()]
+        for e, why in chk.validate("StlLargeTrace", lobs, chunks=1, timeout=300):
+            chk.violation("large:n=%d:%s" % (e["n"], why),
+                          "list of %d triangles: %s (size=%d count=%d records=%d first bad record=%d loaded=%d first bad loaded=%d)" % (
+                              e["n"], why, e["size"], e["count"], e["recs"], e["recbad"], e["loaded"], e["loadbad"]),
+                          dict(kind="large", n=e["n"]))
+        chk.traces += len(lobs)
+        chk.cov["large_lists"] = [o["n"] for o in lobs]
     binobs = [o for o in obs if o["kind"] != "ascii"]
     chk.cov.update(dict(
         plans=plans, vectors_from_tlc=ndy, seeded_real_valued_lists=nrnd, files_written_and_parsed=len(binobs),
